@@ -41,8 +41,8 @@ META = {
 # ---------------------------------------------------------------------------------------------------------------
 # HOOK for the coordinator: engine-level confinement theorems (C02_confined / C02_no_recover) and the modules that
 # have to be imported for the axiom audit to see them. Both lists are appended below; leave empty until they exist.
-ENGINE_THEOREMS = []
-ENGINE_IMPORTS = []
+ENGINE_THEOREMS = ['Scalibr.Walk.C02_confined', 'Scalibr.Walk.C02_panic_only_from_extractor']
+ENGINE_IMPORTS = ['Scalibr.Properties.C02Engine']
 # ---------------------------------------------------------------------------------------------------------------
 
 PARSER_THEOREMS = ['Scalibr.Parsers.C02_apk_total', 'Scalibr.Parsers.C02_gradle_total', 'Scalibr.Parsers.C02_gemfile_total',
